@@ -72,6 +72,28 @@ def make_wordlist(chk, rng, from_file=None, **kw):
                     if k != 0:
                         d[k][i] = str(d[k][i])
         return d, wl, 'file'
+    if rng.random() < 0.12:
+        # labels that differ by surrounding blanks only ('hand' / 'hand ', as typed into a spreadsheet): in a wordlist built from a dictionary
+        # they are different concepts / languages, each row under the label it carries
+        hdr = d[0]
+        i = hdr.index(rng.choice(['concept', 'concept', 'doculect']))
+        vals = sorted(set(d[k][i] for k in d if k != 0 and isinstance(d[k][i], str)))
+        v0 = rng.choice(vals)
+        for k in d:
+            if k != 0 and d[k][i] == v0 and rng.random() < 0.5:
+                d[k][i] = v0 + ' '
+        chk.hist['wordlist (dictionary) with labels that differ by a trailing blank'] += 1
+    if rng.random() < 0.2:
+        # names spelled with combining marks (decomposed unicode, as exported by many databases): a wordlist built from a dictionary
+        # lists and finds the names as they are spelled in the rows (only the file reader normalises what it reads)
+        import unicodedata
+        hdr = d[0]
+        for col in ('doculect', 'concept'):
+            i = hdr.index(col)
+            for k in d:
+                if k != 0 and isinstance(d[k][i], str):
+                    d[k][i] = unicodedata.normalize('NFD', d[k][i])
+        chk.hist['wordlist (dictionary) with decomposed unicode names'] += 1
     return d, Wordlist(d), 'dict'
 
 
